@@ -321,14 +321,37 @@ pub fn preprocess_str<T: AsRef<Path>, U: AsRef<Path>, V: BuildHasher>(
             continue;
         }
 
+        // IEEE1800-2017 Clause 22.4, page 675
+        // Only white space or a comment may appear on the same line as
+        // the `include compiler directive.
+        // An item can span several lines, so the lines of its first and last
+        // non-whitespace characters are compared with the line of `include.
         match n.clone() {
             NodeEvent::Enter(RefNode::SourceDescriptionNotDirective(x)) => {
                 let locate: Locate = x.try_into().unwrap();
-                if let Some(last_include_line) = last_include_line {
-                    if last_include_line == locate.line {
+                if let Some((first_line, _)) = item_lines(&locate, s) {
+                    if last_include_line == Some(first_line) {
                         return Err(Error::IncludeLine);
                     }
                 }
+            }
+            // A string literal or an escaped identifier is an item on the line it
+            // starts at; directives following it can be part of its node.
+            NodeEvent::Enter(RefNode::SourceDescription(SourceDescription::StringLiteral(x))) => {
+                let locate: Locate = (&**x).try_into().unwrap();
+                if last_include_line == Some(locate.line) {
+                    return Err(Error::IncludeLine);
+                }
+                last_item_line = Some(locate.line);
+            }
+            NodeEvent::Enter(RefNode::SourceDescription(SourceDescription::EscapedIdentifier(
+                x,
+            ))) => {
+                let locate: Locate = (&**x).try_into().unwrap();
+                if last_include_line == Some(locate.line) {
+                    return Err(Error::IncludeLine);
+                }
+                last_item_line = Some(locate.line);
             }
             NodeEvent::Enter(RefNode::CompilerDirective(x)) => {
                 let locate: Locate = x.try_into().unwrap();
@@ -341,13 +364,15 @@ pub fn preprocess_str<T: AsRef<Path>, U: AsRef<Path>, V: BuildHasher>(
             NodeEvent::Leave(RefNode::SourceDescriptionNotDirective(x)) => {
                 let locate: Locate = x.try_into().unwrap();
                 // If the item is whitespace, last_item_line should not be updated
-                if !locate.str(s).trim().is_empty() {
-                    last_item_line = Some(locate.line);
+                if let Some((_, last_line)) = item_lines(&locate, s) {
+                    last_item_line = Some(last_line);
                 }
             }
             NodeEvent::Leave(RefNode::CompilerDirective(x)) => {
                 let locate: Locate = x.try_into().unwrap();
-                last_item_line = Some(locate.line);
+                if let Some((_, last_line)) = item_lines(&locate, s) {
+                    last_item_line = Some(last_line);
+                }
             }
             _ => (),
         }
@@ -804,6 +829,19 @@ pub fn preprocess_str<T: AsRef<Path>, U: AsRef<Path>, V: BuildHasher>(
     }
 
     Ok((ret, defines))
+}
+
+// Lines of the first and the last non-whitespace character of an item,
+// or None if the item is whitespace only.
+fn item_lines(locate: &Locate, s: &str) -> Option<(u32, u32)> {
+    let text = locate.str(s);
+    let first = text.find(|c: char| !c.is_whitespace())?;
+    let last = text.trim_end().len();
+    let newlines = |x: &str| x.matches('\n').count() as u32;
+    Some((
+        locate.line + newlines(&text[..first]),
+        locate.line + newlines(&text[..last]),
+    ))
 }
 
 fn identifier(node: RefNode, s: &str) -> Option<String> {
